@@ -29,6 +29,8 @@ func init() { runners["C12"] = runC12 }
 func runC12(cases string, res *Result) {
 	c12Relibrary(res)
 	c12NamesThatCollide(res)
+	c12DefaultsAreExpressions(res)
+	c12AfterAFailedImport(res)
 	firstKnown := map[string]*Finding{}
 	knownSize := map[string]int{}
 	readCases(cases, func(c Case) {
